@@ -325,6 +325,13 @@ def run_ds_blocks(c):
             if fl and not dead[b]:
                 dead[b] = True
                 rec["flips"][fl] = rec["flips"].get(fl, 0) + 1
+                if fl == "gate-flip" and c["root"] == "eigh":
+                    _, tol_, _ = _tols(sS["stats"], p, c)
+                    r_ = _rel(_sl(uW, blk), uS)
+                    if not r_ <= tol_:
+                        rec.setdefault("k8", []).append({"block": b, "t": t, "rel": r_, "tol": tol_,
+                                                         "errors_blocked": [float(x) for x in sub["err"]],
+                                                         "errors_separate": [float(x) for x in sS["err"]]})
                 rec["reexam_suspect"] += _reexamine(sS, p, c.get("meps", 1e-6), thr)
                 rec["reexam_suspect"] += _reexamine({"stats": sW["stats"][b * nst:(b + 1) * nst], "pre": sW["pre"][b * nst:(b + 1) * nst],
                                                      "err": sub["err"], "retries": sub["retries"]}, p, c.get("meps", 1e-6), thr)
@@ -399,10 +406,15 @@ def run_ds_companions(c):
     leaves = {n: tuple(s) for n, s in c["leaves"].items()}
     rs = np.random.RandomState(c["seed"])
     hist = {}
-    for i, n in enumerate(sorted(leaves)):
-        blocks = ds_blocks_of(leaves[n], c["block"])
-        sc = _block_scales(rs, len(blocks), c["scales"]) * 10.0 ** rs.uniform(-3, 3)
-        hist[n] = make_history(c["seed"] + 7 * i + 1, leaves[n], blocks, sc, T, np.float32)
+    k8rs = None
+    if c.get("recipe") == "k8":          # the witness of known finding K8 (corpus/reproducers/k8_eigh_gate_absolute_error.py)
+        k8rs = np.random.RandomState(c["seed"])
+        hist["w"] = [np.asarray(k8rs.randn(5, 5) * 460., np.float32) for _ in range(T)]
+    else:
+        for i, n in enumerate(sorted(leaves)):
+            blocks = ds_blocks_of(leaves[n], c["block"])
+            sc = _block_scales(rs, len(blocks), c["scales"]) * 10.0 ** rs.uniform(-3, 3)
+            hist[n] = make_history(c["seed"] + 7 * i + 1, leaves[n], blocks, sc, T, np.float32)
     rec = {"task": c, "fails": [], "flips": {}, "bitwise": 0, "compared": 0, "nontrivial": [], "maxrel": 0.0,
            "reexam_suspect": 0, "layouts": []}
     base = ds_run(c, graft, leaves, [{n: hist[n][t] for n in leaves} for t in range(T)])
@@ -410,8 +422,8 @@ def run_ds_companions(c):
         cshapes = {n: tuple(s) for n, s, _ in comp}
         ch = {}
         for j, (n, s, sc) in enumerate(comp):
-            r2 = np.random.RandomState(c["seed"] + 1000 * (vi + 1) + j)
-            ch[n] = [np.asarray(r2.standard_normal(tuple(s)) * sc, np.float32) for _ in range(T)]
+            r2 = k8rs if k8rs is not None else np.random.RandomState(c["seed"] + 1000 * (vi + 1) + j)
+            ch[n] = [np.asarray(r2.randn(*tuple(s)) * sc, np.float32) for _ in range(T)]
         shapes = dict(leaves)
         shapes.update(cshapes)
         full = ds_run(c, graft, shapes, [{**{n: hist[n][t] for n in leaves}, **{n: ch[n][t] for n in cshapes}} for t in range(T)])
@@ -432,6 +444,15 @@ def run_ds_companions(c):
                     dead = True
                     rec["flips"][fl] = rec["flips"].get(fl, 0) + 1
                     rec["reexam_suspect"] += _reexamine(sA, p, c.get("meps", 1e-6), thr) + _reexamine(sB, p, c.get("meps", 1e-6), thr)
+                    if fl == "gate-flip" and c["root"] == "eigh":
+                        # known finding K8: the absolute eigh residual straddles inverse_failure_threshold; one run stored the new
+                        # root, the other kept the old one.  Reported when the pair really differs beyond tolerance.
+                        _, tol_, _ = _tols(sA["stats"], p, c)
+                        r_ = _rel(uB, uA)
+                        if not r_ <= tol_:
+                            rec.setdefault("k8", []).append({"leaf": n, "variant": vi, "t": t, "rel": r_, "tol": tol_,
+                                                             "errors_alone": [float(x) for x in sA["err"]],
+                                                             "errors_with_companions": [float(x) for x in sB["err"]]})
                 if dead:
                     break
                 kap, tol, tolp = _tols(sA["stats"], p, c)
@@ -1002,6 +1023,19 @@ def execute(ctx, tasks, rat_n=0):
             ctx.nontrivial((k, key, tuple(nt) if isinstance(nt, (list, tuple)) else nt))
         for f in r["fails"][:5]:
             ctx.violation(f["what"], {"task": t, "detail": {a: b for a, b in f.items() if a != "what"}})
+        for hit in r.get("k8", [])[:3]:
+            ctx.dist("known_finding.K8_gate_flip_with_differing_update")
+            what = ("eigh=True: absolute eigh residual straddles inverse_failure_threshold, the gate decision flips with the padding / batch "
+                    f"(errors {hit.get('errors_alone', hit.get('errors_blocked'))} vs {hit.get('errors_with_companions', hit.get('errors_separate'))}) "
+                    f"and the leaf's update differs by {hit['rel']:.3g} (tolerance {hit['tol']:.3g})")
+            if "K8" in ctx.known_ids():
+                ctx.known_finding("K8", what if not ctx.known_hits else "eigh=True gate flip (absolute residual vs inverse_failure_threshold) changes a leaf's update when other leaves / blocks are added")
+                ctx.cov.setdefault("known_finding_cases", [])
+                if len(ctx.cov["known_finding_cases"]) < 5:
+                    ctx.cov["known_finding_cases"].append({"task": {a: b for a, b in t.items() if a != "companions"}, "hit": hit})
+            else:
+                ctx.violation("DS eigh=True: acceptance gate flips between two runs of the same statistics and the leaf's update differs: " + what,
+                              {"task": t, "detail": hit})
         compare_model(ctx, r, replies[i0:i1])
     return recs
 
@@ -1048,8 +1082,9 @@ def run(ctx):
         "u = 2^-24 (2^-53 under x64, where the root routine runs in float64); statistics 1e-5",
         "discontinuities: (leaf, step) pairs are compared only while total_retries, the Newton iteration counts and the acceptance decisions "
         "(error < inverse_failure_threshold) of both runs agree; otherwise counted as branch-flip / gate-flip, the stored roots re-examined "
-        "against their own equation, never a violation by itself (DESIGN 2.3). Note: with eigh=True the reported error is absolute "
-        "(|U' A U - diag(e)|), so gate flips concentrate at statistics of magnitude ~1e5..1e6 in float32",
+        "against their own equation, never a violation by itself (DESIGN 2.3). Exception: an eigh=True gate flip (the reported eigh residual "
+        "is absolute, so it straddles the threshold for statistics of magnitude ~1e5..1e6 in float32) whose pair really differs beyond "
+        "tolerance is known finding K8 (KNOWN-FINDING line; a violation if K8 is no longer listed)",
         "Tearfree: a step where an eigenvalue lies within 1e-6 (relative) of eps*max(w) is cut-boundary (not compared)",
         "Lean hypotheses checked on the source: the Tearfree cut uses max(w, axis=-1, keepdims=True); 0 < eps < 1; exponent p = 2 * rank >= 1; "
         "power_iteration's start vector is prefix-stable (numpy RandomState) and max_eigen_value of padded / unpadded statistics agree",
